@@ -55,6 +55,9 @@ pub struct K16 {
     /// connection carries nothing for longer than that between two groups of lines
     #[serde(default)]
     pub quiet_filter_s: Option<u64>,
+    /// `RUST_LOG` of the client (None = unset)
+    #[serde(default)]
+    pub rust_log: Option<String>,
 }
 
 fn stream_of(s: &S16) -> Vec<u8> {
@@ -120,7 +123,7 @@ pub fn compile(sc: &K16) -> KChild {
         }
         events.push(KEvent { at_us: t_end, ev: KEv::Key { code: "c:q".into(), ctrl: false, shift: false, alt: false } });
     }
-    KChild { gpsd: None, ev_delay_us: vec![], connects, events, proc_delay_us: sc.proc_delay_us.clone(), coalesce: sc.coalesce.clone(), step_budget: 60_000 }
+    KChild { rust_log: sc.rust_log.clone(), gpsd: None, ev_delay_us: vec![], connects, events, proc_delay_us: sc.proc_delay_us.clone(), coalesce: sc.coalesce.clone(), step_budget: 60_000 }
 }
 
 // ---------------------------------------------------------------------------- generation
@@ -312,6 +315,10 @@ pub fn generate(rng: &mut Rng, fault_free: bool) -> K16 {
         }
     };
 
+    let rust_log = if !fault_free && rng.chance(0.3) { Some((*rng.pick(&["trace", "debug", "info", "rsadsb_common=trace", "radar=trace,adsb_deku=debug", "warn", ""])).to_string()) } else { None };
+    if rust_log.is_some() {
+        faults.push("diagnostics_switched_on".into());
+    }
     if !fault_free && !for_1090 && rng.chance(0.05) {
         // quiet feed: a healthy connection that carries nothing for longer than the expiry time
         // (night, a receiver out of range of everything), then traffic again. Nobody disconnected:
@@ -340,7 +347,7 @@ pub fn generate(rng: &mut Rng, fault_free: bool) -> K16 {
         faults.push("quiet_longer_than_expiry_time".into());
         let eintr_reads = if rng.chance(0.3) { (0..1 + rng.below(4)).map(|_| rng.below(40)).collect() } else { vec![] };
         let sessions = vec![S16 { outcome: KOutcome::Accept, lines: lines.iter().map(|l| wire::hex(l)).collect(), splits, close: None, eintr_reads }];
-        return K16 { app: app.into(), retry, limit_parsing, sessions, proc_delay_us: vec![], coalesce: (0..16).map(|_| rng.chance(0.7)).collect(), f3_period_us: 250_000, faults, quiet_filter_s: Some(f) };
+        return K16 { app: app.into(), retry, limit_parsing, sessions, proc_delay_us: vec![], coalesce: (0..16).map(|_| rng.chance(0.7)).collect(), f3_period_us: 250_000, faults, quiet_filter_s: Some(f), rust_log };
     }
     let nsess_accept = if retry { 1 + rng.usize_below(3) } else { 1 };
     let mut sessions = vec![];
@@ -483,7 +490,7 @@ pub fn generate(rng: &mut Rng, fault_free: bool) -> K16 {
         vec![]
     };
     let coalesce = if fault_free { vec![] } else { (0..16).map(|_| rng.chance(0.7)).collect() };
-    K16 { app: app.into(), retry, limit_parsing, sessions, proc_delay_us, coalesce, f3_period_us: *rng.pick(&[250_000u64, 400_000, 1_000_000]), faults, quiet_filter_s: None }
+    K16 { app: app.into(), retry, limit_parsing, sessions, proc_delay_us, coalesce, f3_period_us: *rng.pick(&[250_000u64, 400_000, 1_000_000]), faults, quiet_filter_s: None, rust_log }
 }
 
 // ---------------------------------------------------------------------------- reference
@@ -810,7 +817,8 @@ pub fn execute(sc: &K16) -> Outcome {
 
 fn leak_fault_name(f: &str) -> &'static str {
     // fault names are a closed set; map to 'static for the counters
-    const NAMES: [&str; 30] = [
+    const NAMES: [&str; 31] = [
+        "diagnostics_switched_on",
         "quiet_longer_than_expiry_time",
         "malformed_line:at_prefixed_short",
         "malformed_line:random_printable",
@@ -1204,6 +1212,11 @@ pub fn shrink(sc: &K16) -> Vec<K16> {
                 c.push(x);
             }
         }
+    }
+    if sc.rust_log.is_some() {
+        let mut x = sc.clone();
+        x.rust_log = None;
+        c.push(x);
     }
     if !sc.proc_delay_us.is_empty() {
         let mut x = sc.clone();
